@@ -54,6 +54,8 @@ type genConfig struct {
 	// HostState uses host.bump()/host.state: Go-side module state shared by every
 	// program that imports the module (only for engines that reset it between runs).
 	HostState bool
+	// ManyVars sometimes starts the script with 15–26 variable declarations.
+	ManyVars bool
 	// Params declares `param (PA, PB)`: an int and a string passed by the host to Run.
 	Params bool
 	// ShadowBuiltins lets top-level statements rebind builtin names (len, int, string, …) that later statements call.
@@ -538,6 +540,15 @@ func (g *gen) stmt(lvl int) string {
 	case 1: // define
 		t := typ(g.t.Draw(int(tErr)))
 		name := g.fresh("v")
+		if len(g.scopes) > 1 && g.t.Bool(1, 8) {
+			// a new variable of an inner scope that takes the name of a variable or constant of an outer scope
+			if outer := g.vars(tAny); len(outer) > 0 {
+				name = outer[g.t.Draw(len(outer))].name
+				if strings.Contains(name, ".") || name == "GV" || name == "PA" || name == "PB" {
+					name = g.fresh("v")
+				}
+			}
+		}
 		s := ind(lvl) + name + " := " + g.expr(t, 3) + "\n"
 		g.declare(gvar{name: name, t: t})
 		return s
@@ -687,7 +698,9 @@ func (g *gen) stmt(lvl int) string {
 func (g *gen) shareStmt(lvl int) string {
 	in := ind(lvl)
 	e := g.fresh("err")
-	switch g.t.Draw(6) {
+	switch g.t.Draw(7) {
+	case 6: // a Go builtin module function with internal look-ups
+		return in + "log(string(import(\"time\").LoadLocation(" + []string{"\"UTC\"", "\"\"", "\"Local\""}[g.t.Draw(3)] + ")))\n"
 	case 5: // a runtime error built from a process-wide sentinel (ZeroDivisionError): deriving a new error from it must not touch the sentinel
 		e2 := g.fresh("err")
 		return in + "try {\n" + in + "\tlog(7 / (len(WID) - len(WID)))\n" + in + "} catch " + e + " {\n" + in + "\tlog(" + e + ".New(WID + \"-derived\").Message, " + e + ".Message)\n" + in + "}\n" +
@@ -717,6 +730,10 @@ func (g *gen) shareStmt(lvl int) string {
 // importStmt imports a generated, fixed, host or stdlib module into a variable.
 func (g *gen) importStmt(lvl int) string {
 	name := g.fresh("m")
+	if g.t.Bool(1, 12) {
+		g.features["import-host2"] = true
+		return ind(lvl) + name + " := import(\"host2\")\n" + ind(lvl) + "log(" + name + ".double(" + g.expr(tInt, 1) + "), " + name + ".str)\n"
+	}
 	switch k := g.t.Draw(4 + len(g.gmods)); {
 	case k == 0:
 		g.declare(gvar{name: name, t: tMap, konst: true, mod: &gmod{name: name, fns: []gvar{
@@ -737,6 +754,10 @@ func (g *gen) importStmt(lvl int) string {
 			s += ind(lvl) + "log(" + name + ".arr, " + name + ".map, " + name + ".nzero, " + name + ".str)\n"
 		}
 		if g.t.Bool(1, 3) {
+			// a SyncMap attribute: read, written and read again (every VM has its own copy)
+			s += ind(lvl) + "log(" + name + ".sync.a)\n" + ind(lvl) + name + ".sync.a = " + g.expr(tInt, 1) + "\n" + ind(lvl) + "log(" + name + ".sync.a, len(" + name + ".emap), len(" + name + ".esync))\n"
+		}
+		if g.t.Bool(1, 3) {
 			s += ind(lvl) + "log(" + name + "[\"\"], " + name + ".errA, " + name + ".errB, " + name + ".rterr, " + name + ".bytes, " + name + ".char, " + name + ".uint)\n"
 		}
 		if !g.cfg.NoTrace && g.t.Bool(1, 3) {
@@ -751,7 +772,14 @@ func (g *gen) importStmt(lvl int) string {
 		return ind(lvl) + name + " := import(\"strings\")\n" + ind(lvl) + "log(" + name + ".Repeat(" + g.expr(tStr, 1) + ", 2), " + name + ".Map(func(c) { return c + 1 }, " + g.strLit() + "))\n"
 	case k == 3:
 		g.features["import-json"] = true
-		return ind(lvl) + name + " := import(\"json\")\n" + ind(lvl) + "log(string(" + name + ".Marshal(" + g.expr(tArr, 1) + ")))\n"
+		s := ind(lvl) + name + " := import(\"json\")\n" + ind(lvl) + "log(string(" + name + ".Marshal(" + g.expr(tArr, 1) + ")))\n"
+		if g.t.Bool(1, 3) {
+			// an encoding that fails part-way (infinity is not representable), then one that succeeds
+			e := g.fresh("err")
+			s += ind(lvl) + "try {\n" + ind(lvl+1) + "log(string(" + name + ".Marshal([1, \"two\", {k: [3]}, 1e308 * 1e308, 5])))\n" + ind(lvl) + "} catch " + e + " {\n" + ind(lvl+1) + "log(\"marshal failed\")\n" + ind(lvl) + "}\n"
+			s += ind(lvl) + "log(string(" + name + ".Marshal({k: [1, " + g.strLit() + "]})))\n"
+		}
+		return s
 	default:
 		m := g.gmods[k-4]
 		g.declare(gvar{name: name, t: tMap, konst: true, mod: &gmod{name: name, fns: m.fns}})
@@ -825,6 +853,17 @@ func (g *gen) program() (string, []srcModule) {
 		for i, n := 0, g.t.Draw(3); i < n; i++ {
 			g.genModule(i)
 		}
+	}
+	if g.cfg.ManyVars && g.t.Bool(1, 3) {
+		// many top-level variables: later declarations land in high slot numbers
+		k := 15 + g.t.Draw(12)
+		var parts []string
+		for i := 0; i < k; i++ {
+			nm := g.fresh("q")
+			parts = append(parts, nm+" = "+fmt.Sprint(i))
+			g.declare(gvar{name: nm, t: tInt})
+		}
+		g.addTop("var (" + strings.Join(parts, ", ") + ")\n")
 	}
 	n := 3 + g.t.Draw(g.cfg.MaxStmts)
 	for i := 0; i < n; i++ {
